@@ -40,10 +40,9 @@ CFG = {
     "rule": RULE_SET + "; every case is one operand pair pushed through 4 operators x 6 forms (24 results dumped)",
     "targets": _T,
     "gaps": [
-        "every C02 theorem takes the bitset kernel facts as the named hypothesis K : BKernel (Lemmas/StoreOps.lean: op_bitmaps / per-bit array folds / to_array_store / to_bitmap_store specs, statements agreed with the core proof library, which proves them in parallel) - hence the _partial suffix; nothing else is missing: all 4 operators x 6 forms are proved exact (C02_all_forms_partial), each through its own code path",
-        "forms-agree is stated on element lists (C02_<op>_forms_agree_partial); structural equality of the results additionally needs C04's canonical-form theorem (all results are proved well-formed)",
+        "no proof gap: all 4 operators x 6 forms are proved exact unconditionally (C02_all_forms), each through its own code path; the lemma library's bitset-kernel record BKernel (Lemmas/StoreOps.lean) is inhabited by bKernel from the core library (Lemmas/BStoreBasic.lean, BStoreRange.lean); C02_forms_agree: all forms of one operator return structurally equal values (Bitmap.canonical)",
         "'borrowed operands are left unchanged' is not a theorem of a functional model; it is checked by the harness (operand hashes after every borrowed form) on the sampled pairs only",
     ],
     "level_text": "Theorems (Lean 4, kernel-checked) that the model of |, &, -, ^ in each operand/assign form computes exactly the set union / intersection / difference / symmetric difference of the operands' element lists; the model (ops.rs Pairs loops, operand swaps, per-kind store dispatch, ensure_correct_store) is tied to the Rust source by running both on the same generated operand pairs in two build profiles, all 4 operators x 6 forms per pair, with the borrowed operands re-hashed after every borrowed form. Unbounded quantifier = theorem; tie = sampled.",
-    "level_note": "Trusted: Lean kernel; the hand-written model mirrors the code (checked by correspondence on generated pairs only); Spec.lean (sOr/sAnd/sSub/sXor with their membership laws) as the meaning of the set operations. 'Borrowed operands unchanged' is not a theorem of a functional model: it is what & guarantees in safe Rust, and is checked by the harness only on the sampled pairs. The only assumed facts are the bitset kernel lemmas bundled in the named hypothesis BKernel (evidence coverage.proof_gaps).",
+    "level_note": "Trusted: Lean kernel; the hand-written model mirrors the code (checked by correspondence on generated pairs only); Spec.lean (sOr/sAnd/sSub/sXor with their membership laws) as the meaning of the set operations. 'Borrowed operands unchanged' is not a theorem of a functional model: it is what & guarantees in safe Rust, and is checked by the harness only on the sampled pairs.",
 }
